@@ -55,6 +55,7 @@ class Router:
         self.expr_t = prog.find_ty("syn::Expr")
         self.lit_t = prog.find_ty("syn::Lit")
         self.open = False   # the leaf left open something the table needs
+        self.open_key = None
 
     def has(self, h):
         return bool(self.mask >> HOOKS.index(h) & 1)
@@ -62,6 +63,8 @@ class Router:
     def variant(self, t, name):
         d = self.st.decisions.get(name + "#d")
         if d is None:
+            if self.st.decisions.get(name + "#not") is None:
+                self.open_key = (name + "#d", t)
             return None
         return t.adt["variants"][d]["name"]
 
@@ -205,6 +208,71 @@ def render_item(st, mdl, base, nested):
 PROG = None
 
 
+class Completed:
+    def __init__(self, decisions):
+        self.decisions = decisions
+
+
+def complete_and_replay(ck, prog, native, l, mask, kind, ename):
+    """try concrete completions of the parts the leaf left open; report a violation if the native run contradicts the table"""
+    lit_t = prog.find_ty("syn::Lit")
+    expr_t = prog.find_ty("syn::Expr")
+
+    def idx(t, n):
+        return [i for i, v in enumerate(t.adt["variants"]) if v["name"] == n][0]
+    work = [dict(l.decisions)]
+    tried = 0
+    ck.obligations += 1
+    while work and tried < 40:
+        dec = work.pop()
+        rt = Router(prog, Completed(dec), mask)
+        exp = rt.route_nested("item*") if kind == "nested" else rt.route_meta("item*", [])
+        if exp is None or rt.open:
+            if rt.open_key is not None:
+                key, t = rt.open_key
+                names = ["Str", "Int", "Bool", "Char"] if t is lit_t else ["Lit", "Path", "Array"]
+                for n in names:
+                    d2 = dict(dec)
+                    d2[key] = idx(t, n)
+                    work.append(d2)
+            else:
+                # open decisions without a type: meta form / nested kind / hook outcomes
+                for k in ("item*#d", "item*.Meta.0#d"):
+                    if k not in dec:
+                        for v in (0, 1, 2):
+                            d2 = dict(dec)
+                            d2[k] = v
+                            work.append(d2)
+                        break
+                else:
+                    hk = [k for k in dec if k.startswith("hook(")]
+                    # an overridden hook that was never called: assume it would succeed
+                    return False
+            continue
+        tried += 1
+        txt = render_item(Completed(dec), None, "item*", kind == "nested")
+        if txt is None:
+            continue
+        req = "(probe_%s %d %s)" % (kind, mask, sx_str(txt))
+        nat = native.ask(req)
+        r = nat.get("result", {}) if isinstance(nat, dict) else {}
+        if exp[0] == "hit":
+            agrees = isinstance(r, dict) and "ok" in r and r["ok"][0] == exp[1]
+            # the native stand-in hook may reject this particular text
+            if isinstance(r, dict) and "err" in r and len(r["err"]) == 1 and r["err"][0]["msg"].startswith("ERR"):
+                agrees = True
+        else:
+            agrees = isinstance(r, dict) and "err" in r
+            if exp[1] == "conv":
+                agrees = True
+        if not agrees:
+            ck.report("probe:ignored-input:%s" % (HOOKS[exp[1]] if exp[0] == "hit" else exp[1]),
+                      "the implementation never looked at a part of the item that decides the hook; table says %r" % (exp[:3],),
+                      {"property": "C15", "crate": "hconv", "request": req, "expected": repr(exp[:3]), "observed": nat})
+            return True
+    return False
+
+
 def probe_job(ck, prog, natbin, mask, quick):
     global PROG
     PROG = prog
@@ -231,6 +299,9 @@ def probe_job(ck, prog, natbin, mask, quick):
             rt = Router(prog, l, mask)
             exp = rt.route_nested("item*") if kind == "nested" else rt.route_meta("item*", [])
             if exp is None or rt.open:
+                # the table depends on a part of the item the implementation never looked at: complete it and replay
+                if complete_and_replay(ck, prog, native, l, mask, kind, ename):
+                    continue
                 ck.engine("%s: routing table needs an input part the implementation never looked at (%r)" % (ename, l.decisions))
                 continue
             got = view(I, l, l.ret, e.local_tys[0])
